@@ -55,6 +55,8 @@ def run(ctx):
     witnesses(ctx)
     # two targets sharing one root directory (codex project scope + zed in the project root), deploys with and without --target
     ds.run_hist_stream(ctx, 6 if quick else 80, 5, props={'C15'}, weights={'deploy': 1}, stream='shared_root_hist', setup=ds.setup_shared_root)
+    ds.run_hist_stream(ctx, 5 if quick else 60, 8, props={'C15'}, weights={'deploy': 1}, stream='bootstrap_rollback',
+                       plan_script=ds.hist_bootstrap_then_rollback, setup=ds.setup_two_roots)
     # deploys that each touch one root only, then rollbacks: every file rollback (re)writes must be listed, every file it deletes unlisted
     ds.run_hist_stream(ctx, 6 if quick else 80, 8, props={'C15'}, weights={'deploy': 1}, stream='two_root_hist',
                        plan_script=ds.hist_two_roots, setup=ds.setup_two_roots)
